@@ -123,6 +123,33 @@ def cases(spec, ctx):
             b = G.rand_layout(rng, g, 5, overlap=rng.random() < 0.2)
         yield {"kind": "random", "a": a, "sa": rng.choice(G.STRANDS), "b": b, "sb": rng.choice(G.STRANDS), "genome": g,
                "parent": rng.choice(["none", "seq", "seq", "mismatch-id", "one-none", "mismatch-type", "mismatch-seq"]), "seed": rng.randrange(1 << 30)}
+    # many blocks (9..24): code paths that switch strategy by block count (bisection, indexes, trees) and unsorted block ends
+    # (nested blocks; zero-length blocks sharing a start with a longer block).  Own stream: the cases above are unchanged.
+    mrng = __import__("random").Random(f"C02-many:{ctx.seed}:{i}")
+    for _ in range(sc["NR"] // (6 * n) + 1):
+        g = mrng.choice([60, 200, 1000])
+        ova = mrng.random() < 0.6
+        k = mrng.randint(9, 24)
+        a = []
+        while len(a) < k:
+            a = list(G.rand_layout(mrng, g, k, overlap=ova))
+            if len(a) < 9:
+                a = []
+        if ova and mrng.random() < 0.7:
+            s0, e0 = max(a, key=lambda x: x[1] - x[0])
+            if e0 - s0 >= 3:     # a block nested early in a long block: block ends are no longer sorted
+                a.append((s0 + 1, s0 + 2))
+            a.append((a[0][0], a[0][0]))   # zero-length block sharing a start
+            a = sorted(set(a))
+        if mrng.random() < 0.6:
+            s0 = mrng.randint(0, g - 1)
+            b = ((s0, min(g, s0 + mrng.choice([1, 2, 5, g // 4]))),)
+        else:
+            b = G.rand_layout(mrng, g, mrng.choice([2, 5, 12]), overlap=mrng.random() < 0.3)
+        if mrng.random() < 0.3:
+            a, b = b, tuple(a)
+        yield {"kind": "random", "a": tuple(a), "sa": mrng.choice(G.STRANDS), "b": tuple(b), "sb": mrng.choice(G.STRANDS), "genome": g,
+               "parent": mrng.choice(["none", "seq"]), "seed": mrng.randrange(1 << 30), "many": True}
     if i == 0:
         # all-empty / empty-singleton operands
         yield {"kind": "unary", "blocks": ((3, 3), (5, 5)), "strand": "+", "genome": 8, "parent": "none"}
